@@ -68,3 +68,9 @@ package datasemaphore
 //@   at call (*sync.Cond).Wait[1] requires weight.Size <= s.maxProcessing.Size && weight.Num <= s.maxProcessing.Num
 //@   at call (*sync.Cond).Wait[1] modifies s.processing, s.maxProcessing
 //@   loop 1 modifies s.processing, s.maxProcessing, gTryLast
+//@
+//@ // Available: the free capacity, read under the mutex (the subtraction wraps when more is held than the capacity,
+//@ // e.g. after Terminate: the result is the 32/64-bit difference)
+//@ func (*DataSemaphore).Available
+//@   requires s != nil
+//@   ensures  result.Num == (s.maxProcessing.Num - s.processing.Num) % 4294967296 && result.Size == (s.maxProcessing.Size - s.processing.Size) % 18446744073709551616
